@@ -1,7 +1,7 @@
 """S — saved-state bookkeeping; U — the edit log (DESIGN.md 3.2, 3.3)."""
 from ..facts import AnalysisBroken, walk, key, cval
 from ..util import (stores, lv_field, is_call, calls_in, refs, fact_list,
-                    flatten_and, negate_truth)
+                    flatten_and, negate_truth, strip_casts)
 
 # field -> (functions allowed to store the field itself, functions allowed to store
 # elements reached through it)
@@ -611,35 +611,67 @@ def rule_U3(ctx):
 
 def rule_U4(ctx):
     ctx.begin("U4", floor=1, what="redo branch cut in lbuf_opt")
-    f = ctx.prog.func("lbuf_opt")
-    cut = None
-    for n, lv, op, rhs in stores(f.body):
-        if op == "=" and lv["k"] == "member" and lv["field"] == "hist_n" and rhs is not None \
-                and rhs["k"] == "member" and rhs["field"] == "hist_u":
-            cut = n
-    if cut is None:
+    prog = ctx.prog
+    top = prog.func("lbuf_opt")
+    # lbuf_opt itself or a helper of the same file it calls may hold the cut
+    cands = [top]
+    for c in top.calls(None):
+        g = prog.resolve(top, c.get("fn")) if c.get("fn") else None
+        if g is not None and g.file == top.file and g not in cands:
+            cands.append(g)
+
+    def cut_of(g):
+        for n, lv, op, rhs in stores(g.body):
+            if op == "=" and lv["k"] == "member" and lv["field"] == "hist_n" and rhs is not None \
+                    and strip_casts(rhs)["k"] == "member" and strip_casts(rhs)["field"] == "hist_u":
+                return n
+        return None
+
+    def uses_of(g):
+        uses = []
+        for n in g.walk():
+            if n["k"] == "sub" and n["base"]["k"] == "member" and n["base"]["field"] == "hist" \
+                    and any(m["k"] == "member" and m["field"] == "hist_n" for m in walk(n["idx"])):
+                par = g.nodes.get(g.parent.get(n["id"]))
+                if par and par["k"] == "un" and par["op"] == "&":
+                    uses.append(n)
+        for n, lv, op, rhs in stores(g.body):
+            if lv["k"] == "member" and lv["field"] == "hist_n" and op in ("pre++", "post++", "+="):
+                uses.append(n)
+        return uses
+
+    holder = None
+    for g in cands:
+        if cut_of(g) is not None:
+            holder = g
+            break
+    if holder is None:
         ctx.violation("lbuf_opt", "redo branch cut",
                       "no store hist_n = hist_u: entries above the undo cursor survive a new edit")
         return
-    # the slot taken for the new entry and the increment come after
-    uses = []
-    for n in f.walk():
-        if n["k"] == "sub" and n["base"]["k"] == "member" and n["base"]["field"] == "hist" \
-                and any(m["k"] == "member" and m["field"] == "hist_n" for m in walk(n["idx"])):
-            par = f.nodes.get(f.parent.get(n["id"]))
-            if par and par["k"] == "un" and par["op"] == "&":
-                uses.append(n)
-    for n, lv, op, rhs in stores(f.body):
-        if lv["k"] == "member" and lv["field"] == "hist_n" and op in ("pre++", "post++", "+="):
-            uses.append(n)
-    if not uses:
+    f = holder
+    cut = cut_of(f)
+    n_uses = 0
+    for g in cands:
+        for u in uses_of(g):
+            n_uses += 1
+            if g is f:
+                good = f.cfg.dominates(cut, u)
+            elif g is top:
+                good = any(top.cfg.dominates(c, u) for c in top.calls(f.name))
+            else:
+                good = None
+            if good:
+                ctx.ok(g.name, "cut dominates new entry", loc=g.loc(u))
+            elif good is None:
+                ctx.inconclusive(g.name, "redo branch cut", "new entry taken in another helper", g.loc(u))
+            else:
+                ctx.violation(g.name, "redo branch cut",
+                              "the new log entry is taken before hist_n = hist_u", g.loc(u))
+    if not n_uses:
         raise AnalysisBroken("lbuf_opt: new entry slot &hist[hist_n] not found")
-    for u in uses:
-        if f.cfg.dominates(cut, u):
-            ctx.ok("lbuf_opt", "cut dominates new entry", loc=f.loc(u))
-        else:
-            ctx.violation("lbuf_opt", "redo branch cut",
-                          "the new log entry is taken before hist_n = hist_u", f.loc(u))
+    if f is not top and not list(top.calls(f.name)):
+        raise AnalysisBroken("lbuf_opt does not call %s" % f.name)
     # the freed range is [hist_u, hist_n)
     freed = False
     for lp in f.walk():
@@ -648,7 +680,7 @@ def rule_U4(ctx):
             if init and c and "hist_u" in key(init) and "hist_n" in key(c):
                 freed = True
     if freed:
-        ctx.ok("lbuf_opt", "entries [hist_u, hist_n) are released before the cut")
+        ctx.ok(f.name, "entries [hist_u, hist_n) are released before the cut")
     else:
         ctx.note("release loop over [hist_u, hist_n) not recognised (leak only, not armed)")
 
